@@ -175,7 +175,7 @@ impl SharedMmap {
         if crate::wal::verif::io_event("write", &self.verif_path, offset as u64, data.len() as u64)
             == crate::wal::verif::IoDecision::Fail
         {
-            return; // a failed pwrite: the FD backend ignores the result
+            return Err(crate::wal::verif::injected_error()); // a failed pwrite
         }
         // Bounds check before raw copy to maintain memory safety
         debug_assert!(offset <= self.storage.len());
